@@ -49,3 +49,5 @@ func TestC08(t *testing.T) { runProp(t, "C08", drawC08) }
 func TestC16(t *testing.T) { runProp(t, "C16", drawC16) }
 
 func TestC09(t *testing.T) { runProp(t, "C09", drawC09) }
+
+func TestC10(t *testing.T) { runProp(t, "C10", drawC10) }
